@@ -303,4 +303,45 @@ theorem handler_receives_what_client_sent (p : Proto) (sp : SpecialParsers)
   simp only
   rw [handlerYields_msgs p sp ys msgs _ hvals]
   simp [handlerYields]
+/-- a `Receive` that fails on what is left of the body fails at once, whatever fuel is left -/
+theorem recvAll_fail_now {Val : Type} (rcfg : ReaderCfg Val) (fuel : Nat) (partial_ : Bytes) (tail : RErr) (e : EnvErr)
+    (hcut : ((envRead rcfg.max).run takeExact { flat := partial_, tail := tail }).1.outcome = .fail e) :
+    ((recvAll rcfg (fuel + 1)).run takeExact { flat := partial_, tail := tail }).1.1 = [.fail e] := by
+  rw [recvAll, Prog.run_bind]
+  unfold envUnmarshal
+  rw [Prog.run_bind]
+  rcases hr : (envRead rcfg.max).run takeExact { flat := partial_, tail := tail } with ⟨r, st⟩
+  rw [hr] at hcut
+  simp only at hcut
+  simp only [Prog.run, unmarshalFrame, hcut]
+
+/-- **handler_truncated_request**: a conforming client wrote `msgs`, then the request body stops
+    strictly inside the next envelope (prefix or payload) or the transport fails there: user code
+    gets exactly `msgs` and then the failure — never a clean end of the request stream (C04's
+    handler-side clause; `C04.cut_inside_prefix` / `cut_inside_payload` give `wrapsEOF = false`). -/
+theorem handler_truncated_request (p : Proto) (sp : SpecialParsers)
+    (w : WriterCfg Bytes) (rcfg : ReaderCfg Bytes)
+    (hcodec : rcfg.codec = w.codec) (hpool : rcfg.pool = w.pool)
+    (hc : C01.CodecLaws w.codec []) (hz : ∀ c, w.pool = some c → C01.CompLaws c)
+    (msgs : List Bytes) (hfit : ∀ v ∈ msgs, C01.Fits w rcfg.max v)
+    (partial_ : Bytes) (tail : RErr) (e : EnvErr)
+    (hcut : ((envRead rcfg.max).run takeExact { flat := partial_, tail := tail }).1.outcome = .fail e)
+    (hne : e.wrapsEOF = false) :
+    handlerRecvStream p sp rcfg { flat := (msgs.map (envMarshal w)).flatten ++ partial_, tail := tail } =
+      (msgs, .fail e.code) := by
+  unfold handlerRecvStream
+  simp only
+  have hlen := flatten_length_ge w msgs
+  obtain ⟨k, hk⟩ : ∃ k, ((msgs.map (envMarshal w)).flatten ++ partial_).length / 5 + 2 = msgs.length + (k + 1) := by
+    refine ⟨((msgs.map (envMarshal w)).flatten ++ partial_).length / 5 + 1 - msgs.length, ?_⟩
+    have : msgs.length ≤ ((msgs.map (envMarshal w)).flatten ++ partial_).length / 5 := by
+      simp only [List.length_append]; omega
+    omega
+  rw [hk]
+  obtain ⟨ys, peak, hrun, _, hvals⟩ := C01.recvAll_prefix w rcfg [] hcodec hpool hc hz (k + 1) partial_ tail msgs hfit
+  rw [hrun, recvAll_fail_now rcfg k partial_ tail e hcut]
+  simp only
+  rw [handlerYields_msgs p sp ys msgs _ hvals]
+  simp [handlerYields, hne]
+
 end ConnectModel.C07
